@@ -163,6 +163,10 @@ func optTime(opt *flow.Term, field string) pat.M {
 		if want(t, b) {
 			return true
 		}
+		if t.Op == flow.OpIte {
+			// options.Now defaulted when nil: ite(options.Now == nil, time.Now(), options.Now.<field>)
+			return pat.Bin("==", pat.Is(fieldT(opt, "Now")), pat.Const("nil"))(t.Args[0], b) && pat.Call("time.Now")(t.Args[1], b) && want(t.Args[2], b)
+		}
 		if t.Op != flow.OpPhi {
 			return false
 		}
